@@ -139,8 +139,15 @@ def throw_obligations(ck, run):
     t_dot_n = sp.cos(th) * cN - sp.sin(th) * sp.sqrt(1 - cN**2) * sp.cos(g.phiTrSubV.e)
     ring_ob(ck, "%s/post.beta.vectors" % qn, g.costhetaTrSubN.e - t_dot_n, hyps=geo_h, replay=lambda: native_first(ck),
             clause="costhetaTrSubN = t . n_S for t = cos(th) v + sin(th)(cos(phi) e1 + sin(phi) e2), e1 the unit vector perpendicular to v in the (v, n_S) plane pointing away from n_S (orientation derived from the code)")
-    ck.direct("%s/post.beta.degrees" % qn, sp.simplify(g.betaTrSubN.e - (sp.pi / 2 - sp.acos(g.costhetaTrSubN.e)) * 180 / sp.pi) == 0, "post", "sympy normal form",
-              clause="reported emergence angle = 90 deg - angle(trajectory, local vertical)")
+    # the cosine is abstracted to one symbol (the identity is about how the angle is derived from it); asin x = pi/2 - acos x is applied
+    # so that either way of writing the complement is recognised; decided numerically first, then by normal form
+    cabs = sp.Symbol("cTrN_abs", real=True)
+    b_abs = g.betaTrSubN.e.xreplace({g.costhetaTrSubN.e: cabs})
+    st_b, wit_b = prover.identity_decide(b_abs.rewrite(sp.acos), ((sp.pi / 2 - sp.acos(cabs)) * 180 / sp.pi), hyps=[sp.Ge(cabs, -1), sp.Le(cabs, 1)], boxes={cabs: (-0.99, 0.99)}, seed=ck.seed)
+    if cabs not in b_abs.free_symbols:
+        st_b = "unknown"
+    ck.direct("%s/post.beta.degrees" % qn, True if st_b == "proved" else (False if st_b == "refuted" else None), "post", "sympy normal form / 40-digit evaluation", witness=wit_b,
+              clause="reported emergence angle = 90 deg - angle(trajectory, local vertical)", replay_out=None if st_b != "refuted" else native_first(ck))
     want_mask = sp.And(sp.Ge(g.costhetaTrSubN.e, 0), sp.Lt(g.betaTrSubN.e, 42))
     cT, bT = sp.Symbol("cTrN_", real=True), sp.Symbol("beta_", real=True)
     m_abs = g.event_mask.e.xreplace({g.betaTrSubN.e: bT}).xreplace({g.costhetaTrSubN.e: cT})
